@@ -27,7 +27,7 @@ var quotedRe = regexp.MustCompile(`'[^']*'|"[^"]*"`)
 var numRe = regexp.MustCompile(`[0-9]+`)
 
 // compile builds prog with the plain compiler; returns the executable path or the diagnostics.
-func compile(b *schedsim.Build, dir string, src string) (exe string, diag string, err error) {
+func compile(b *schedsim.Build, dir string, src string, target string) (exe string, diag string, err error) {
 	pd := filepath.Join(dir, "q")
 	os.MkdirAll(pd, 0755)
 	if err := os.WriteFile(filepath.Join(pd, "main.fer"), []byte(src), 0644); err != nil {
@@ -35,7 +35,12 @@ func compile(b *schedsim.Build, dir string, src string) (exe string, diag string
 	}
 	exe = filepath.Join(dir, "out", "app")
 	env := append(os.Environ(), "FERRET_LIBS_PATH="+b.Libs, "AS=", "LD=", "FERRET_AS=", "FERRET_LD=")
-	pr := core.RunProc(120*time.Second, dir, env, nil, b.Plain, "-o", exe, filepath.Join(pd, "main.fer"))
+	args := []string{"-o", exe, filepath.Join(pd, "main.fer")}
+	if target == "wasm" {
+		args = append([]string{"-target", "wasm"}, args...)
+		exe += ".wasm"
+	}
+	pr := core.RunProc(120*time.Second, dir, env, nil, b.Plain, args...)
 	out := ansiRe.ReplaceAllString(string(pr.Stderr)+string(pr.Stdout), "")
 	if pr.TimedOut {
 		return "", out, fmt.Errorf("compiler timed out")
@@ -188,24 +193,68 @@ type Replay struct {
 	Steps    []string `json:"shrink_log"`
 }
 
+var loaderOnce sync.Once
+var loaderPath string
+var loaderErr error
+
+// wasmLoader installs /repo's runtime/wasm/runtime.js (as an ES module) and a
+// minimal Node loader next to it in the scratch directory.
+func wasmLoader(b *schedsim.Build) (string, error) {
+	loaderOnce.Do(func() {
+		dir := filepath.Join(b.S.Dir, "wasmrt")
+		os.MkdirAll(dir, 0755)
+		rt, err := os.ReadFile(filepath.Join(core.RepoDir, "runtime", "wasm", "runtime.js"))
+		if err != nil {
+			loaderErr = err
+			return
+		}
+		if err := os.WriteFile(filepath.Join(dir, "runtime.mjs"), rt, 0644); err != nil {
+			loaderErr = err
+			return
+		}
+		loader := "import fs from \"node:fs\";\nimport { createFerretRuntime } from \"./runtime.mjs\";\nconst rt = createFerretRuntime();\nconst bytes = fs.readFileSync(process.argv[2]);\nconst { instance } = await WebAssembly.instantiate(bytes, rt.imports);\nrt.bind(instance);\ninstance.exports.main();\n"
+		loaderPath = filepath.Join(dir, "run.mjs")
+		loaderErr = os.WriteFile(loaderPath, []byte(loader), 0644)
+	})
+	return loaderPath, loaderErr
+}
+
 // judgeOne compiles p and runs it under the sinks; issues are returned per sink (index -1: compile).
 func judgeOne(b *schedsim.Build, p *Program, sinks []Sink) (map[int][]Issue, error) {
+	target := p.Target
+	if target == "" {
+		target = "native"
+	}
 	dir, err := os.MkdirTemp(b.S.Dir, "io")
 	if err != nil {
 		return nil, err
 	}
 	defer os.RemoveAll(dir)
 	res := map[int][]Issue{}
-	exe, diag, err := compile(b, dir, p.Source)
+	exe, diag, err := compile(b, dir, p.Source, target)
 	if err != nil {
 		return nil, err
 	}
 	if exe == "" {
+		if target == "wasm" && (strings.Contains(diag, "wasm: unsupported") || strings.Contains(diag, "wasm codegen failed") || strings.Contains(diag, "wasm:")) && !strings.Contains(diag, "out of bounds") {
+			// a construct the wasm back end does not implement: a limitation of that
+			// target (C02's territory), not a bounds mis-rejection
+			res[-2] = nil
+			return res, nil
+		}
 		res[-1] = judgeCompile(p, diag)
 		return res, nil
 	}
+	argv := []string{exe}
+	if target == "wasm" {
+		loader, err := wasmLoader(b)
+		if err != nil {
+			return nil, err
+		}
+		argv = []string{"node", loader, exe}
+	}
 	for i, s := range sinks {
-		x, err := RunUnder(exe, s, dir, 20*time.Second)
+		x, err := RunUnder(argv, s, dir, 30*time.Second)
 		if err != nil {
 			return nil, fmt.Errorf("sink %s: %w", s, err)
 		}
@@ -353,10 +402,21 @@ func CheckC08(tier string, seed uint64) int {
 	}
 	progs := make([]*Program, nProg)
 	sinks := make([][]Sink, nProg)
+	wasmEvery := 4
+	if tier == "thorough" {
+		wasmEvery = 3
+	}
 	for i := range progs {
 		r := core.Sub(seed, "c08", i)
 		progs[i] = Generate(r, maxOps, i%5 < 2)
 		sinks[i] = Sinks(core.Sub(seed, "c08", "sinks", i), allSinks)
+		if i%wasmEvery == wasmEvery-1 {
+			// second configuration: the .wasm under Node with runtime/wasm/runtime.js
+			progs[i].Target = "wasm"
+			if !allSinks {
+				sinks[i] = sinks[i][:4]
+			}
+		}
 	}
 	type found struct {
 		p     *Program
@@ -367,7 +427,7 @@ func CheckC08(tier string, seed uint64) int {
 	var mu sync.Mutex
 	classes := map[string]*found{}
 	var trouble []string
-	var execs, compiledOK, refusedStatically, panicsRun, broken int
+	var execs, compiledOK, refusedStatically, panicsRun, broken, wasmProgs, wasmUnsupported, wasmExecs int
 	sinkRuns := map[string]int{}
 	core.ParallelDo(nProg, func(i int) {
 		res, err := judgeOne(b, progs[i], sinks[i])
@@ -379,12 +439,16 @@ func CheckC08(tier string, seed uint64) int {
 			}
 			return
 		}
-		if _, compileFailed := res[-1]; compileFailed || (len(res) == 0 && false) {
-			// handled below
+		isWasm := progs[i].Target == "wasm"
+		if isWasm {
+			wasmProgs++
 		}
-		if is, ok := res[-1]; ok {
-			_ = is
-		} else {
+		if _, unsupported := res[-2]; unsupported {
+			wasmUnsupported++
+			return
+		}
+		_, compileFailed := res[-1]
+		if !compileFailed {
 			compiledOK++
 		}
 		for k, is := range res {
@@ -401,8 +465,11 @@ func CheckC08(tier string, seed uint64) int {
 				f.count++
 			}
 		}
-		if _, ok := res[-1]; !ok {
+		if !compileFailed {
 			execs += len(sinks[i])
+			if isWasm {
+				wasmExecs += len(sinks[i])
+			}
 			for _, s := range sinks[i] {
 				sinkRuns[s.Stdout+"/"+s.Stderr]++
 				if !s.Healthy() {
@@ -414,10 +481,6 @@ func CheckC08(tier string, seed uint64) int {
 			}
 		}
 	})
-	// programs whose only compile result was a permitted static refusal
-	for i := range progs {
-		_ = i
-	}
 	exit, violations := 0, 0
 	known := map[string]int{}
 	names := make([]string, 0, len(classes))
@@ -493,7 +556,7 @@ func CheckC08(tier string, seed uint64) int {
 			withOOB++
 		}
 	}
-	refusedStatically = nProg - compiledOK
+	refusedStatically = nProg - compiledOK - wasmUnsupported
 	cls := map[string]int{}
 	for c, f := range classes {
 		cls[c] = f.count
@@ -510,6 +573,7 @@ func CheckC08(tier string, seed uint64) int {
 			"programs":                                nProg,
 			"programs_with_out_of_range_access":       withOOB,
 			"programs_compiled":                       compiledOK,
+			"wasm_configuration":                      map[string]int{"programs": wasmProgs, "refused_as_unsupported_by_the_wasm_back_end": wasmUnsupported, "executions_under_node": wasmExecs},
 			"programs_refused_or_failed_at_compile":   refusedStatically,
 			"executions":                              execs,
 			"executions_of_panicking_programs":        panicsRun,
@@ -530,7 +594,7 @@ func CheckC08(tier string, seed uint64) int {
 			"the list model's semantics are the documented ones: negative index i designates i+len, valid iff -len <= i < len; append grows the array by one",
 			"an access that is out of range in every execution may be refused at compile time with the bounds diagnostic; any other refusal of a workload program is a violation",
 			"on broken sinks only a prefix of the expected stdout can be demanded; the process must still end",
-			"the wasm/runtime.js configuration is not executed by this check (native only)",
+			"a fraction of the programs is compiled with -target wasm and executed under Node 20 with /repo/runtime/wasm/runtime.js; programs the wasm back end refuses as unsupported are counted, not judged",
 		},
 		WallS: wall, Violations: violations,
 	}
